@@ -4,7 +4,7 @@
    Proofs in theories/Fast/Proofs.v.  The C10_src_* theorems at the end are re-proved on every run against genprops/FastGen.v, the translation of
    the scalar logic and loop shapes of get_first_window / get_fast_alignment from the CURRENT continuum.py (harness/gen_fast.py). *)
 From Coq Require Import String List Arith ZArith Bool Permutation Lia.
-From PGA Require Import Fast.Model Fast.Proofs Fast.FastFull.
+From PGA Require Import Fast.Model Fast.Proofs Fast.FastFull Fast.Window.
 From PGAprops Require Import FastGen.
 Import ListNotations.
 Local Open Scope Z_scope.
@@ -107,4 +107,36 @@ Theorem C10_src_fast_alignment_shape :
    ("consume", "for chosen in chosen_alignments: unitary_alignments.append(chosen); disorders.append(chosen.disorder); for annotator, unit in chosen.n_tuple: if unit is not None: copy.remove(annotator, unit)");
    ("copy", "self.copy()");
    ("return", "return Alignment(unitary_alignments, self, check_validity=False, disorder=np.sum(disorders) / self.avg_num_annotations_per_annotator)")]%string.
+Proof. reflexivity. Qed.
+
+(* ---------------------------------------------------------------------------------------------------------------------------------
+   Which window sizes reach get_fast_alignment when fast-mode gamma chooses for itself.  The sizes offered by measure_best_window_size are
+   np.arange(1, max(2, M)) (M = largest number of units of an annotator): never empty, so the minimum of the cost estimate exists; the size stored
+   is the entry at that minimum, hence a whole number in [1, max(2, M) - 1]; nothing else is stored (np.inf stays = exact route); the job takes
+   the windowed route exactly when a size was stored.  The theorems above hold for every size, so in particular for every measured one.
+   The floating-point cost estimate is not modelled (any choice among the offered sizes gives a valid alignment). *)
+Theorem C10_offered_window_sizes_nonempty M : arange 1 (Z.max 2 M) <> [].
+Proof. exact (window_sizes_nonempty M). Qed.
+Theorem C10_measured_window_in_range M i b w : measured_window 1 (Z.max 2 M) i b = Some w -> 1 <= w <= Z.max 2 M - 1.
+Proof. exact (measured_window_in_range M i b w). Qed.
+Theorem C10_fast_job_window_positive M i b w : fast_job_route (measured_window 1 (Z.max 2 M) i b) = Windowed w -> 1 <= w.
+Proof. exact (fast_job_window_positive M i b w). Qed.
+Theorem C10_fast_job_exact_iff_unmeasured bws : fast_job_route bws = Exact <-> bws = None.
+Proof. exact (fast_job_exact_iff_unmeasured bws). Qed.
+Example C10_measured_window_example : measured_window 1 (Z.max 2 12) 3 true = Some 4 /\ measured_window 1 (Z.max 2 1) 0 true = Some 1 /\
+                                      measured_window 1 (Z.max 2 12) 3 false = None.
+Proof. vm_compute. repeat split. Qed.
+
+(* tie to the source: the offered range, the one store (entry at the arg-minimum, guarded by a comparison of the minimum itself), no other branch,
+   and the dispatch of the fast job *)
+Theorem C10_src_window_range M : arange (window_lo_src M) (window_hi_src M) = arange 1 (Z.max 2 M).
+Proof. reflexivity. Qed.
+Theorem C10_src_measure_window_shape :
+  measure_window_shape_src =
+  [("min_index", "np.argmin(times)"); ("guard_lhs", "times[min_index]"); ("store", "self.best_window_size = window_sizes[min_index]"); ("else", "")]%string.
+Proof. reflexivity. Qed.
+Theorem C10_src_fast_job :
+  fast_job_src =
+  ["if continuum.best_window_size == np.inf: return continuum.get_best_alignment(dissimilarity)";
+   "return continuum.get_fast_alignment(dissimilarity, continuum.best_window_size)"]%string.
 Proof. reflexivity. Qed.
